@@ -491,10 +491,15 @@ func supervisorMain() int {
 		for _, t := range agg.Trouble {
 			fmt.Println("HARNESS-TROUBLE:", t)
 		}
-		return 2
 	}
+	// a violation is judged on the ledger of the execution in which it occurred, so it stands even
+	// when another run of the batch showed harness trouble (e.g. the determinism probe, which a
+	// change to the code under test can upset by making two of its timers coincide)
 	if len(unknown) > 0 {
 		return 1
+	}
+	if trouble {
+		return 2
 	}
 	return 0
 }
